@@ -10,7 +10,7 @@ Q3 transfer wait: cross-machine predecessors are collected, passed to do_work, w
 import ast
 
 from ..index import AnalysisError, is_spawn, walk_no_nested
-from ..norm import Canon, Lit, Logic, ProvCanon, affine, effects_of_event, lit_lt
+from ..norm import Canon, Lit, Logic, ProvCanon, affine, effects_of_event, lit_lt, effects_along
 from ..paths import Frame, cached_paths, contains_yield
 from ..skel import outcomes
 from . import cluster_units as CU
@@ -285,8 +285,8 @@ def q2(repo, res, canon, logic):
         if f is alloc or f.name == '__init__':
             continue
         for p in cached_paths(f) if f.cls and f.cls.name == 'Cluster' else []:
-            for e in p.events:
-                for ef in effects_of_event(canon, e):
+            for e, _efs in effects_along(canon, p.events):
+                for ef in _efs:
                     if ef.kind == 'assign' and ef.loc.startswith(CU.FINISHED + '[') and ef.arg == 'True':
                         res.bad('C03.Q2', f, ef.node, '%s marks tasks finished' % f.qual,
                                 '%s marks a task finished outside the completion branch' % f.qual)
